@@ -216,7 +216,13 @@ func (f *RepeatingGroup) Read(tv []TagValue) ([]TagValue, error) {
 		}
 
 		group.rwLock.Lock()
-		group.tagLookup[tvRange[0].tag] = tvRange
+		// Keep the fields the item consumed (one field, or a nested group's whole extent),
+		// not everything that follows it in the message.
+		consumed := len(tvRange) - len(tv)
+		if consumed < 1 {
+			consumed = 1
+		}
+		group.tagLookup[tvRange[0].tag] = tvRange[:consumed]
 		group.tags = append(group.tags, gi.Tag())
 		group.rwLock.Unlock()
 	}
